@@ -1,5 +1,5 @@
 (* C15: evaluation of the model on recorded cases (correspondence check). *)
-From CJ Require Import Common.Base C15.Model C15.ModelName C15.ModelObf C15.ModelAny C15.ModelDns.
+From CJ Require Import Common.Base C15.Model C15.ModelName C15.ModelObf C15.ModelAny C15.ModelDns C15.ModelB32 C15.ModelExch.
 
 Definition obs := (bool * bytes * bool * bytes)%type.
 
@@ -203,6 +203,61 @@ Definition chk_msg_dec (d : bytes) (code : N) (back : cmsg) : bool :=
   | Panic => false
   end.
 
+(* ---- the exchange ----
+   base32 is instantiated with the concrete coding of ModelB32.  The Noise layer is random: its
+   messages are read off the observed datagrams and only their lengths are compared
+   (handshake message = 48 + payload, reply = 16 + answer octets). *)
+Definition b32l (p : bytes) : bytes := lower (b32_encode p).
+
+(* responder.responseFor on a parsed query: (has response, flags, has payload, payload) *)
+Definition chk_query (m : cmsg) (dom : name) (hasresp : bool) (flags : N) (haspay : bool) (payload : bytes) : bool :=
+  match response_for b32_decode (to_msg m) dom with
+  | None => negb hasresp
+  | Some (resp, None) => hasresp && (flags =? m_flags resp) && negb haspay
+  | Some (resp, Some p) => hasresp && (flags =? m_flags resp) && haspay && bytes_eqb p payload
+  end.
+
+Definition res_bytes_eqb (r : result wr_err bytes) (b : bytes) : bool :=
+  match r with Ok w => bytes_eqb w b | _ => false end.
+
+(* one exchange over loopback: qw / rw = the datagrams seen on the requester's socket,
+   plen / rlen = lengths of the request payload and of the callback's answer,
+   fallback = the requester reported a decryption failure (oversized answer replaced by an empty body) *)
+Definition chk_exch (dom : name) (plen : N) (qw : bytes) (rlen : N) (rw : bytes) (fallback : bool) : bool :=
+  match read_message qw with
+  | Ok q =>
+    match m_q q with
+    | [qu] =>
+      let nm := q_name qu in
+      let id := m_id q in
+      match name_payload b32_decode dom nm with
+      | Some framed =>
+        (blen framed =? plen + 49) &&
+        match remove_request_format framed with
+        | Some hs => (blen hs =? plen + 48) && option_eqb bytes_eqb (add_request_format hs) (Some framed)
+        | None => false
+        end &&
+        match request_name b32l dom framed with Ok nm' => name_eqb nm nm' | _ => false end &&
+        res_bytes_eqb (wire_message (query_msg id nm)) qw &&
+        match read_message rw with
+        | Ok a =>
+          match response_payload a dom with
+          | Some body =>
+            (if fallback then blen body =? 0
+             else match remove_response_format body with Some enc => (blen enc =? rlen + 16) && (blen body =? rlen + 18) | None => false end) &&
+            res_bytes_eqb (wire_message (answer_msg (ok_resp id nm) body)) rw &&
+            (blen rw <=? max_udp_payload)
+          | None => false
+          end
+        | _ => false
+        end
+      | None => false
+      end
+    | _ => false
+    end
+  | _ => false
+  end.
+
 Inductive vcase :=
 | CFmt (op : N) (d : bspec) (o : obs_spec)
 | CNameRt (n : name) (o : name_rt_obs)
@@ -214,7 +269,9 @@ Inductive vcase :=
 | CReveal (v : N) (c : bytes) (ok : bool) (out : bytes)
 | CAny (nilsrc : bool) (kind dst : N) (url : string) (fields : list N) (ok2 : bool) (fout : list N) (url_after : string)
 | CMsgRt (m : cmsg) (code1 : N) (out : bspec) (code2 : N) (back : cmsg)
-| CMsgDec (d : bytes) (code : N) (back : cmsg).
+| CMsgDec (d : bytes) (code : N) (back : cmsg)
+| CQuery (m : cmsg) (dom : name) (hasresp : bool) (flags : N) (haspay : bool) (payload : bytes)
+| CExch (dom : name) (plen : N) (qw : bytes) (rlen : N) (rw : bytes) (fallback : bool).
 
 Definition chk (c : vcase) : bool :=
   match c with
@@ -229,4 +286,6 @@ Definition chk (c : vcase) : bool :=
   | CAny nl k d u f ok2 fo ua => chk_any nl k d u f ok2 fo ua
   | CMsgRt m c1 o c2 b => chk_msg_rt m c1 o c2 b
   | CMsgDec d c b => chk_msg_dec d c b
+  | CQuery m d hr fl hp p => chk_query m d hr fl hp p
+  | CExch d pl qw rl rw fb => chk_exch d pl qw rl rw fb
   end.
